@@ -210,6 +210,13 @@ pub fn check(prop: &str, tier: &str) -> Option<Report> {
         // long cold script
         w.push(cold_world(vec![Ev::n(1), Ev::n(2), Ev::n(1), Ev::n(2), Ev::n(3), Ev::n(1), Ev::C], true));
       }
+      // the same histories with the crate's own Subject as the hot source
+      let subj: Vec<World> = w
+        .iter()
+        .filter(|x| x.srcs[0] == SrcKind::Hot)
+        .map(|x| World { srcs: vec![SrcKind::Subject], acts: x.acts.clone() })
+        .collect();
+      w.extend(subj);
       let oracle = match prop {
         "C05" => vec![Oracle::Unsub],
         "C06" => vec![Oracle::Teardown],
@@ -351,7 +358,8 @@ pub fn multi_families(th: bool, rude: bool, oracles: Vec<Oracle>) -> Vec<(Family
   // flat_map into hot inners: outer s0 (items 0/1 select inner s1/s2)
   let mut w_fmh = vec![];
   let inner_scripts = wf_scripts(&[1], 1, &[Ending::Complete, Ending::Error, Ending::Silent]);
-  let outer_small = wf_scripts(&[0, 1], if th { 3 } else { 2 }, &[Ending::Complete, Ending::Silent]);
+  // 3 outer items: a third inner subscription while two earlier ones overlap
+  let outer_small = wf_scripts(&[0, 1], 3, &[Ending::Complete, Ending::Silent]);
   for o in &outer_small {
     for a in &inner_scripts {
       for b in &inner_scripts {
